@@ -211,7 +211,9 @@ class CallMixin:
                 env[p.arg] = self.ev1(d, self.St(), frm)
         return env
 
-    REPO_MODELS = {'treadmill.fs:write_safe': 'model_write_safe'}
+    REPO_MODELS = {'treadmill.fs:write_safe': 'model_write_safe',
+                   'treadmill.zknamespace:join_zookeeper_path': 'model_join_zookeeper_path',
+                   'treadmill.zkutils:with_retry': 'model_with_retry'}
 
     def call_repo(self, st, fr, fv, args, kwargs):
         qual = fv.qual
